@@ -494,7 +494,8 @@ class BindPart(Part):
         self.prop, self.rewrite_cfg, self.seq_cfg = prop, rewrite_cfg, seq_cfg
 
     def parts(self):
-        a = McPart(self.name + '-mc', self.prop, 'cmd/whawty-auth', ['harness/agentmc', 'harness/agentbind/shared', 'harness/agentbind/mc'], self.rewrite_cfg)
+        a = McPart(self.name + '-mc', self.prop, 'cmd/whawty-auth', ['harness/agentmc', 'harness/agentbind/shared', 'harness/agentbind/mc'], self.rewrite_cfg,
+                   extra_rewrites=[('store', {'fileops': True})])
         b = McPart(self.name + '-plain', self.prop, 'cmd/whawty-auth', ['harness/agentbind/shared', 'harness/agentbind/plain'], self.seq_cfg)
         return a, b
 
@@ -557,8 +558,9 @@ class McPart(Part):
     Scenarios are distributed over worker processes (one scheduler per process)."""
 
     def __init__(self, name, prop, pkg, harness_dirs, rewrite_cfg, thorough_only=False,
-                 deadline_quick=240, deadline_thorough=1500):
+                 deadline_quick=240, deadline_thorough=1500, extra_rewrites=None):
         super().__init__(name, thorough_only)
+        self.extra_rewrites = extra_rewrites or []
         self.prop = prop
         self.pkg = pkg
         self.harness_dirs = harness_dirs
@@ -585,6 +587,16 @@ class McPart(Part):
             raise ToolError('mcrewrite failed on %s:\n%s' % (self.pkg, p.stderr[-4000:]))
         ctx.log('rewrote %s in %.1fs' % (self.pkg, time.time() - t))
         mapping = json.loads(p.stdout)
+        for xpkg, xcfg in self.extra_rewrites:
+            xout = os.path.join(ctx.scratch, 'rw-%s-%s' % (self.name, xpkg.replace('/', '_')))
+            xcfgp = os.path.join(ctx.scratch, 'rwcfg-%s-%s.json' % (self.name, xpkg.replace('/', '_')))
+            with open(xcfgp, 'w') as f:
+                json.dump(xcfg, f)
+            px = subprocess.run([tool, '-dir', os.path.join(ctx.repo, xpkg), '-out', xout, '-config', xcfgp],
+                                cwd=ctx.repo, env=goenv(), stdout=subprocess.PIPE, stderr=subprocess.PIPE, text=True)
+            if px.returncode != 0:
+                raise ToolError('mcrewrite failed on %s:\n%s' % (xpkg, px.stderr[-4000:]))
+            mapping.update(json.loads(px.stdout))
         m = ctx.base_mapping()
         for orig, new in mapping.items():
             m[os.path.relpath(orig, ctx.repo)] = new
